@@ -43,11 +43,19 @@ pub struct Scenario {
     pub block_directory: bool,
     /// the stand-in chronyd answers this long after the request arrived
     pub chronyd_delay_ms: u64,
+    /// delay of the reply to the k-th request (overrides chronyd_delay_ms; the last value repeats)
+    pub reply_delays_ms: Vec<u64>,
+    /// reply k carries root dispersion 0.01 s + k ms, so that the published bound tells which reply was used,
+    /// and the observation lists when each request arrived
+    pub tag_replies: bool,
+    /// chronyd listens on its UDP command port (127.0.0.1:323, in a private network namespace) instead of the
+    /// Unix socket
+    pub udp_only: bool,
 }
 
 impl Scenario {
     pub fn blank() -> Scenario {
-        Scenario { name: "", args: vec![], chronyd: None, phc: PhcFile::Absent, preexisting: None, observe_ms: 1000, block_directory: false, chronyd_delay_ms: 0 }
+        Scenario { name: "", args: vec![], chronyd: None, phc: PhcFile::Absent, preexisting: None, observe_ms: 1000, block_directory: false, chronyd_delay_ms: 0, reply_delays_ms: vec![], tag_replies: false, udp_only: false }
     }
 }
 
@@ -101,11 +109,88 @@ fn enter_namespace() -> Result<(), String> {
     Ok(())
 }
 
-fn fake_chronyd(ref_id: u32, leap: u16, delay_ms: u64) -> Result<(), String> {
+pub fn tagged_spec(ref_id: u32, leap: u16, ref_time_ns: i128, k: usize) -> TrackSpec {
+    TrackSpec { disp_bits: encode_float(0.01 + 0.001 * k as f64), ..spec_for(ref_id, leap, ref_time_ns) }
+}
+
+fn raw_mono_ns() -> i128 {
+    let mut ts = libc::timespec { tv_sec: 0, tv_nsec: 0 };
+    // SAFETY: plain system call with a valid pointer
+    unsafe { libc::syscall(libc::SYS_clock_gettime, libc::CLOCK_MONOTONIC, &mut ts as *mut libc::timespec) };
+    ts.tv_sec as i128 * 1_000_000_000 + ts.tv_nsec as i128
+}
+
+type Arrivals = std::sync::Arc<std::sync::Mutex<Vec<i128>>>;
+
+fn bring_loopback_up() -> Result<(), String> {
+    // SAFETY: ioctl on a throw-away datagram socket with a zeroed ifreq naming "lo"
+    unsafe {
+        let fd = libc::socket(libc::AF_INET, libc::SOCK_DGRAM, 0);
+        if fd < 0 {
+            return Err("socket".into());
+        }
+        let mut ifr: libc::ifreq = std::mem::zeroed();
+        for (i, b) in b"lo".iter().enumerate() {
+            ifr.ifr_name[i] = *b as libc::c_char;
+        }
+        let mut ok = libc::ioctl(fd, libc::SIOCGIFFLAGS, &mut ifr) == 0;
+        if ok {
+            ifr.ifr_ifru.ifru_flags |= (libc::IFF_UP | libc::IFF_RUNNING) as libc::c_short;
+            ok = libc::ioctl(fd, libc::SIOCSIFFLAGS, &ifr) == 0;
+        }
+        libc::close(fd);
+        if !ok {
+            return Err(format!("cannot bring lo up: {}", std::io::Error::last_os_error()));
+        }
+    }
+    Ok(())
+}
+
+fn fake_chronyd(sc: &Scenario, arrivals: Arrivals) -> Result<(), String> {
+    let (ref_id, leap) = sc.chronyd.unwrap();
+    let delays = if sc.reply_delays_ms.is_empty() { vec![sc.chronyd_delay_ms] } else { sc.reply_delays_ms.clone() };
+    let tag = sc.tag_replies;
+    let make = move |k: usize, seq: u32| -> Vec<u8> {
+        let rt = real_now_ns() - 1_000_000_000;
+        if tag { tracking_wire(&tagged_spec(ref_id, leap, rt, k), seq) } else { tracking_wire(&spec_for(ref_id, leap, rt), seq) }
+    };
+    if sc.udp_only {
+        // SAFETY: plain system call
+        if unsafe { libc::unshare(libc::CLONE_NEWNET) } != 0 {
+            return Err(format!("unshare(CLONE_NEWNET): {}", std::io::Error::last_os_error()));
+        }
+        bring_loopback_up()?;
+        let sock = std::net::UdpSocket::bind("127.0.0.1:323").map_err(|e| format!("bind 127.0.0.1:323: {e}"))?;
+        std::thread::spawn(move || {
+            let mut buf = [0u8; 1500];
+            let mut k = 0usize;
+            loop {
+                let (n, addr) = match sock.recv_from(&mut buf) {
+                    Ok(x) => x,
+                    Err(_) => return,
+                };
+                if n < 12 {
+                    continue;
+                }
+                arrivals.lock().unwrap().push(raw_mono_ns());
+                let seq = u32::from_be_bytes([buf[8], buf[9], buf[10], buf[11]]);
+                let d = delays[k.min(delays.len() - 1)];
+                let reply = make(k, seq);
+                k += 1;
+                let s2 = sock.try_clone().expect("clone");
+                std::thread::spawn(move || {
+                    std::thread::sleep(std::time::Duration::from_millis(d));
+                    let _ = s2.send_to(&reply, addr);
+                });
+            }
+        });
+        return Ok(());
+    }
     std::fs::create_dir_all("/var/run/chrony").map_err(|e| e.to_string())?;
     let sock = std::os::unix::net::UnixDatagram::bind("/var/run/chrony/chronyd.sock").map_err(|e| format!("bind chronyd.sock: {e}"))?;
     std::thread::spawn(move || {
         let mut buf = [0u8; 1500];
+        let mut k = 0usize;
         loop {
             let (n, addr) = match sock.recv_from(&mut buf) {
                 Ok(x) => x,
@@ -114,14 +199,21 @@ fn fake_chronyd(ref_id: u32, leap: u16, delay_ms: u64) -> Result<(), String> {
             if n < 12 {
                 continue;
             }
+            arrivals.lock().unwrap().push(raw_mono_ns());
             let seq = u32::from_be_bytes([buf[8], buf[9], buf[10], buf[11]]);
-            if delay_ms > 0 {
-                std::thread::sleep(std::time::Duration::from_millis(delay_ms));
-            }
-            let reply = tracking_wire(&spec_for(ref_id, leap, real_now_ns() - 1_000_000_000), seq);
-            if let Some(p) = addr.as_pathname() {
-                let _ = sock.send_to(&reply, p);
-            }
+            let d = delays[k.min(delays.len() - 1)];
+            let reply = make(k, seq);
+            k += 1;
+            let path = addr.as_pathname().map(|p| p.to_path_buf());
+            let s2 = sock.try_clone().expect("clone");
+            std::thread::spawn(move || {
+                if d > 0 {
+                    std::thread::sleep(std::time::Duration::from_millis(d));
+                }
+                if let Some(p) = path {
+                    let _ = s2.send_to(&reply, p);
+                }
+            });
         }
     });
     Ok(())
@@ -143,8 +235,9 @@ pub fn run_scenario(bin: &str, sc: &Scenario) -> Result<Value, String> {
         if let PhcFile::Value(v) = sc.phc {
             crate::histmc::pipeline::write_sysfs_like(Path::new(&phc_path), v);
         }
-        if let Some((id, leap)) = sc.chronyd {
-            if let Err(e) = fake_chronyd(id, leap, sc.chronyd_delay_ms) {
+        let arrivals: Arrivals = Default::default();
+        if sc.chronyd.is_some() {
+            if let Err(e) = fake_chronyd(&sc, arrivals.clone()) {
                 return json!({"unavailable": e});
             }
         }
@@ -187,7 +280,7 @@ pub fn run_scenario(bin: &str, sc: &Scenario) -> Result<Value, String> {
                     let gen = u16::from_ne_bytes([b[14], b[15]]);
                     if gen != 0 && gen % 2 == 0 && gen != last_gen {
                         last_gen = gen;
-                        pubs.push(json!({"t_ms": t, "generation": gen,
+                        pubs.push(json!({"t_ms": t, "generation": gen, "as_of_ns": (i64::from_ne_bytes(b[16..24].try_into().unwrap()) as i128 * 1_000_000_000 + i64::from_ne_bytes(b[24..32].try_into().unwrap()) as i128).to_string(),
                             "bound_ns": i64::from_ne_bytes(b[48..56].try_into().unwrap()), "drift_ppb": u32::from_ne_bytes(b[56..60].try_into().unwrap()),
                             "status": u32::from_ne_bytes(b[64..68].try_into().unwrap()), "phc_attribute_present": Path::new(&phc_path).exists()}));
                     }
@@ -216,7 +309,8 @@ pub fn run_scenario(bin: &str, sc: &Scenario) -> Result<Value, String> {
         };
         let _ = child.kill();
         let _ = child.wait();
-        json!({"publications": pubs, "daemon_exit_status": exit, "daemon_exited_after_ms": exit_after_ms, "segment_mode_octal": file_mode.map(|m| format!("{m:o}")), "directory_mode_octal": dir_mode.map(|m| format!("{m:o}")),
+        let arr: Vec<String> = arrivals.lock().unwrap().iter().map(|a| a.to_string()).collect();
+        json!({"publications": pubs, "chronyd_request_arrivals_mono_ns": arr, "daemon_exit_status": exit, "daemon_exited_after_ms": exit_after_ms, "segment_mode_octal": file_mode.map(|m| format!("{m:o}")), "directory_mode_octal": dir_mode.map(|m| format!("{m:o}")),
             "file_mode": file_mode, "dir_mode": dir_mode, "opened_by_uid_65534": other_user})
     })
 }
